@@ -51,6 +51,9 @@ def resolve_id(spec, ctx):
         return ctx["cur"] + 2**32
     if spec == "hi":
         return ctx["cur"] + 2**40
+    if isinstance(spec, str) and spec[:1] in "mp" and spec[1:].isdigit():
+        # m256 / p65536 ...: the outstanding id minus / plus a power of 256 (equal in some of the low octets only)
+        return ctx["cur"] - int(spec[1:]) if spec[0] == "m" else ctx["cur"] + int(spec[1:])
     raise ValueError(spec)
 
 
@@ -265,10 +268,18 @@ def apply_inner(reply, ops):
                     "wide127": b"\xff" + len(body).to_bytes(127, "big"),
                     "zero-long": b"\x81\x00",
                     "top-bit": b"\x88\x80" + len(body).to_bytes(7, "big"),
+                    "alias64": b"\x89\x01" + len(body).to_bytes(8, "big"),
+                    "alias32": b"\x85\x01" + len(body).to_bytes(4, "big"),
+                    "alias16": b"\x83\x01" + len(body).to_bytes(2, "big"),
                 }
                 node.raw = tag + forms[op["form"]] + body + (b"\x00\x00" if op["form"] == "indef-eoc" else b"")
             label["wf"] = None
             label["why"] = kind
+            if kind == "len_form" and op["form"] in ("alias64", "alias32", "alias16"):
+                # the true length plus 2^64 / 2^32 / 2^16: runs far past everything - never acceptable
+                label["wf"] = False
+                label["why"] = "length-past-parent"
+                label["tampered"] = node.name
             continue
         if kind in ("del", "dup", "swap_tag", "len", "set_content", "trunc_content", "raw"):
             idx = op.get("node", 0) % len(nodes)
